@@ -1103,9 +1103,51 @@ func Fanout(w *load.World, c *core.Collector) {
 							if add, ok := st.Val.(*ssa.BinOp); !ok || add.Op != token.ADD {
 								continue
 							}
-							if !onlyViaAny(nilEdges, st.Block()) {
-								countBad = w.At(st)
+							if onlyViaAny(nilEdges, st.Block()) {
+								continue
 							}
+							// a small recorder literal ("recordSuccess") that is itself only called where
+							// the shard's call succeeded
+							recorder := len(nilEdges) == 0
+							if recorder {
+								calledOK, calls := true, 0
+								for _, caller := range append([]*ssa.Function{f}, f.AnonFuncs...) {
+									if caller == lit {
+										continue
+									}
+									var cEdges []ssax.Edge
+									for _, cb := range caller.Blocks {
+										for _, ci := range cb.Instrs {
+											if lc, ok := ci.(*ssa.Call); ok {
+												if ev := errResultValue(lc); ev != nil {
+													_, ne := ssax.NilTests(caller, ev)
+													cEdges = append(cEdges, ne...)
+												}
+											}
+										}
+									}
+									for _, cb := range caller.Blocks {
+										for _, ci := range cb.Instrs {
+											lc, ok := ci.(*ssa.Call)
+											if !ok || lc.Call.StaticCallee() != nil {
+												continue
+											}
+											for _, fn := range funcValuesOf(w, lc.Call.Value, 0) {
+												if fn == lit {
+													calls++
+													if !onlyViaAny(cEdges, cb) {
+														calledOK = false
+													}
+												}
+											}
+										}
+									}
+								}
+								if calls > 0 && calledOK {
+									continue
+								}
+							}
+							countBad = w.At(st)
 						}
 					}
 					for _, lit := range f.AnonFuncs {
